@@ -7,6 +7,7 @@ import (
 	"runtime"
 	"strings"
 	"sync"
+	"sync/atomic"
 
 	"github.com/smart-core-os/sc-golang/internal/minibus"
 	"github.com/smart-core-os/sc-golang/pkg/resource"
@@ -95,6 +96,9 @@ func runMerge(acts []act) []ob {
 	p := startPipe(resource.VerifMergeCollectionExcess, "mergeCollectionExcess", "VerifMergeCollectionExcess")
 	obs := make([]ob, 0, len(acts))
 	for _, a := range acts {
+		if n := len(obs); n > 0 && (obs[n-1].Kind == 'b' || obs[n-1].Kind == 'k') {
+			break // stuck: every further action would only wait again; the shorter observation list is judged as a failure
+		}
 		switch a.Kind {
 		case 'S':
 			if p.closed {
@@ -105,6 +109,7 @@ func runMerge(acts []act) []ob {
 			if p.send(&ch) {
 				obs = append(obs, ob{Kind: 's'})
 			} else {
+				trouble.Add(1)
 				obs = append(obs, ob{Kind: 'b'})
 			}
 		case 'R':
@@ -122,6 +127,7 @@ func runMerge(acts []act) []ob {
 			case rClosed:
 				obs = append(obs, ob{Kind: 'x'})
 			default:
+				trouble.Add(1)
 				obs = append(obs, ob{Kind: 'k'})
 			}
 		case 'C':
@@ -144,6 +150,9 @@ func runDrop(acts []dact) []ob {
 	p := startPipe(minibus.DropExcess, "minibus.DropExcess")
 	obs := make([]ob, 0, len(acts))
 	for _, a := range acts {
+		if n := len(obs); n > 0 && (obs[n-1].Kind == 'b' || obs[n-1].Kind == 'k') {
+			break
+		}
 		switch a.Kind {
 		case 'S':
 			if p.closed {
@@ -153,6 +162,7 @@ func runDrop(acts []dact) []ob {
 			if p.send(a.M) {
 				obs = append(obs, ob{Kind: 's'})
 			} else {
+				trouble.Add(1)
 				obs = append(obs, ob{Kind: 'b'})
 			}
 		case 'R':
@@ -169,6 +179,7 @@ func runDrop(acts []dact) []ob {
 			case rClosed:
 				obs = append(obs, ob{Kind: 'x'})
 			default:
+				trouble.Add(1)
 				obs = append(obs, ob{Kind: 'k'})
 			}
 		case 'C':
@@ -202,6 +213,16 @@ func dobCoq(o ob) string {
 	}
 	return "DBlocked"
 }
+
+// trouble counts observations that cost a wall-clock budget (a Send not taken, an offered change
+// not receivable, a public-API run that did not converge).  Each is reported; once there are
+// many, the remaining runs of that stage are skipped: the verdict is already decided and a broken
+// pipeline would otherwise cost thousands of timeouts.
+var trouble atomic.Int64
+
+const troubleLimit = 12
+
+func tooMuchTrouble() bool { return trouble.Load() >= troubleLimit }
 
 // ---- parallel execution: each worker drives one pipe at a time ----
 
@@ -409,9 +430,16 @@ func min64(a, b int64) int64 {
 
 func addMergeCases(o *vcoq.Out, seqs [][]act, tag string) {
 	results := make([][]ob, len(seqs))
-	parallel(len(seqs), func(i int) { results[i] = runMerge(seqs[i]) })
+	parallel(len(seqs), func(i int) {
+		if !tooMuchTrouble() {
+			results[i] = runMerge(seqs[i])
+		}
+	})
 	for i, acts := range seqs {
 		obs := results[i]
+		if obs == nil {
+			continue // skipped, see tooMuchTrouble
+		}
 		ja := make([]any, len(acts))
 		for k, a := range acts {
 			ja[k] = a.js()
@@ -455,9 +483,16 @@ func addMergeCases(o *vcoq.Out, seqs [][]act, tag string) {
 
 func addDropCases(o *vcoq.Out, seqs [][]dact, tag string) {
 	results := make([][]ob, len(seqs))
-	parallel(len(seqs), func(i int) { results[i] = runDrop(seqs[i]) })
+	parallel(len(seqs), func(i int) {
+		if !tooMuchTrouble() {
+			results[i] = runDrop(seqs[i])
+		}
+	})
 	for i, acts := range seqs {
 		obs := results[i]
+		if obs == nil {
+			continue
+		}
 		ca := make([]string, len(acts))
 		ja := make([]any, len(acts))
 		var key strings.Builder
@@ -581,9 +616,9 @@ func genC09(o *vcoq.Out, r *vcoq.Rand, tier string) error {
 	}
 
 	// ---- 2. mergeCollectionExcess, bounded-exhaustive over 2 ids ----
-	length := 6
+	length := 7
 	if thorough {
-		length = 8
+		length = 9
 	}
 	var seqs [][]act
 	for _, s := range exhaustive(length, 2) {
@@ -592,9 +627,9 @@ func genC09(o *vcoq.Out, r *vcoq.Rand, tier string) error {
 	addMergeCases(o, seqs, fmt.Sprintf("merge:exhaustive-len%d", length))
 
 	// ---- 3. random longer valid scripts over 4 ids, and over 2 ids just beyond the exhaustive length ----
-	nrand := 600
+	nrand := 1500
 	if thorough {
-		nrand = 12000
+		nrand = 20000
 	}
 	seqs = nil
 	for i := 0; i < nrand; i++ {
@@ -608,9 +643,9 @@ func genC09(o *vcoq.Out, r *vcoq.Rand, tier string) error {
 	addMergeCases(o, seqs, "merge:random-valid")
 
 	// ---- 4. wild scripts (outside the guard) ----
-	nwild := 300
+	nwild := 600
 	if thorough {
-		nwild = 6000
+		nwild = 8000
 	}
 	seqs = nil
 	for i := 0; i < nwild; i++ {
